@@ -711,6 +711,8 @@ class Interp(object):
         if hasattr(obj, 'pv_setattr'):
             obj.pv_setattr(self, fr, name, val)
             return
+        if isinstance(obj, FuncV) and name in ('__doc__', '__name__'):
+            return          # documentation metadata of a function object: dropped like docstrings
         raise Unsupported('setattr %s on %r' % (name, obj))
 
     # ---- exceptions
@@ -1764,6 +1766,11 @@ def _owns(fn, target):
 def _pymethod(obj, name):
     def call(I, fr, args, kwargs):
         if name == 'format' and isinstance(obj, str):
+            if all(type(a) in (str, int, bool) for a in list(args) + list(kwargs.values())):
+                try:
+                    return obj.format(*args, **kwargs)      # names built from literals (e.g. '__{}{}__'.format(modifier, op)) are exact
+                except Exception:
+                    return obj
             return obj
         if name == 'join' and isinstance(obj, str):
             return '<joined>'
